@@ -121,8 +121,63 @@ func init() {
 		}
 		return "same " + h1 + " " + hex.EncodeToString(b2)
 	}
+	// nmfseq <name> <bigvalue>: build from a caller-owned *big.Int and a caller-owned []byte; then make UNRELATED builds of
+	// other fields with arguments of every kind (plain integer, []byte, *big.Int); the caller's first arguments must still
+	// hold what they held, and the first fields must still encode to what they encoded to (arguments are left unmodified,
+	// also by what the library does later)
+	runners["nmfseq"] = func(a []string) string {
+		v, _ := new(big.Int).SetString(a[1], 10)
+		nom := []int{}
+		keep := v.String()
+		f1, err := of.NewMatchField(a[0], v, nom...)
+		if err != nil {
+			return "err"
+		}
+		b1, _ := f1.MarshalBinary()
+		h1 := hex.EncodeToString(b1)
+		bs := append([]byte(nil), b1[4:]...)
+		keepbs := hx(bs)
+		f1b, errb := of.NewMatchField(a[0], bs, nom...)
+		var h1b string
+		if errb == nil {
+			x, _ := f1b.MarshalBinary()
+			h1b = hex.EncodeToString(x)
+		}
+		for round := 0; round < 3; round++ {
+			of.NewMatchField("NXM_NX_REG0", uint32(5+round), nom...)
+			of.NewMatchField("NXM_NX_REG1", []byte{0, 0, 0, byte(7 + round)}, nom...)
+			of.NewMatchField("NXM_NX_XXREG0", big.NewInt(int64(9+round)), nom...)
+			of.NewMatchField("NXM_NX_REG2", int(3), 4, 8)
+			of.NewMatchField("NXM_NX_CT_MARK", uint64(11), 0, 16)
+		}
+		if v.String() != keep {
+			return "changed big argument " + keep + " -> " + v.String()
+		}
+		if hx(bs) != keepbs {
+			return "changed bytes argument " + keepbs + " -> " + hx(bs)
+		}
+		x, _ := f1.MarshalBinary()
+		if hex.EncodeToString(x) != h1 {
+			return "changed field " + h1 + " -> " + hex.EncodeToString(x)
+		}
+		if errb == nil {
+			y, _ := f1b.MarshalBinary()
+			if hex.EncodeToString(y) != h1b {
+				return "changed field(bytes) " + h1b + " -> " + hex.EncodeToString(y)
+			}
+		}
+		return "kept " + h1
+	}
 	families["C17"] = func(c *Ctx) {
 		names := namesFrom(verifRoot() + "/lean/OFV/Gen/Registry.lean")
+		loadSpecWidths()
+		for _, n := range names {
+			if L := specWidth[n]; L > 0 {
+				one := new(big.Int).Lsh(big.NewInt(1), uint(8*L))
+				c.run("nmfseq", n, new(big.Int).Sub(one, big.NewInt(2)).String())
+				c.run("nmfseq", n, new(big.Int).Rand(c.rng, one).String())
+			}
+		}
 		for _, n := range names {
 			c.run("nmf2", n, 1, 2)
 			c.run("nmf2", n, 0, 255, 0, 8)
@@ -131,7 +186,6 @@ func init() {
 			c.run("nmf2", n, 17, 34)
 		}
 		width := func(n string) int { return specWidth[n] }
-		loadSpecWidths()
 		vals := func(w int) []string {
 			one := new(big.Int).Lsh(big.NewInt(1), uint(w))
 			max := new(big.Int).Sub(one, big.NewInt(1))
